@@ -71,28 +71,36 @@ def modeOf (s : String) : Except String PdtVerif.EpochSampler.Mode :=
   | "raise" => pure .raise | "drop" => pure .drop | "uneven" => pure .uneven | "ignore" => pure .ignore
   | _ => throw s!"unknown mode {s}"
 
-def opOf (j : Json) : Except String Op := do
+/-- "serve" | {"set": e} | "open" | {"next": k} | "len" | {"peek": e}. -/
+def opOf (j : Json) : Except String IOp := do
   match j with
   | .str "serve" => pure .serve
-  | _ => do
-    let e ← getNat j "set"
-    pure (.setEpoch e)
+  | .str "open" => pure .newIter
+  | .str "len" => pure .len
+  | _ =>
+    match fieldOpt j "set", fieldOpt j "next", fieldOpt j "peek" with
+    | some e, _, _ => do pure (.setEpoch (← jsonToNat e))
+    | _, some k, _ => do pure (.next (← jsonToNat k))
+    | _, _, some e => do pure (.peek (← jsonToNat e))
+    | _, _, _ => throw "unknown operation"
 
-/-- The value `len(loader)` has before and after every `serve` of an operation sequence (a fold
-next to `Loader.exec`, which reports the batches). -/
-def lensAlong (perm : Nat → List Nat) : List Op → Loader → List (Nat × Except Err Nat × Except Err Nat)
+/-- The states a script passes through (a fold of `Session.step` next to `Session.exec`, which
+reports what every operation showed): for every operation the state before and after it. -/
+def statesAlong (perm : Nat → List Nat) : List IOp → Session → List (Session × Session)
   | [], _ => []
-  | .serve :: ops, l =>
-    let l' := (l.serve perm).2
-    (l.epoch, l.len perm, l'.len perm) :: lensAlong perm ops l'
-  | .setEpoch e :: ops, l => lensAlong perm ops (l.setEpoch e)
+  | op :: ops, s =>
+    let s' := (Session.step perm op s).2
+    (s, s') :: statesAlong perm ops s'
 
 /-- case: {lens, nb, B, dynamic, drop, sort, cw, mode, dist: null | [rank, world], init_epoch,
 perms: [[epoch, [..ordering..]]..] (the whole-data-set ordering of every epoch that can be reached),
-ops: ["serve" | {"set": e}]..}. The sampler is C13's model (`EpochSampler.init/iter`), the loader
-object is `Loader` (`new`, `exec`, `len`). Reply: {"err": "ValueError"} (the sampler refuses the
-world size), {"err": ..} (bucket parameters fail) or {"serves": [{epoch, order, batches, rows, err,
-len, len_after}..], "final_epoch", "params"}; `rows` = each batch after the collate function's
+ops: ["serve" | {"set": e} | "open" | {"next": k} | "len" | {"peek": e}]..}. The sampler is C13's
+model (`EpochSampler.init/iter`), the loader object is `Loader`, the script runs through
+`Session.exec`. Reply: {"err": "ValueError"} (the sampler refuses the world size), {"err": ..}
+(bucket parameters fail) or {"serves": [{epoch, order, batches, rows, err, len, len_after}..] (one
+per "serve"), "events": [{op, epoch (before), epoch_after, order (this rank's samples of the epoch
+before), ..}] (one per operation: "next" carries batch / row / stop / err, "len" carries len, "peek"
+carries samples), "final_epoch", "params"}; `rows` / `row` = a batch after the collate function's
 optional stable sort by length. -/
 def c14Loader : Handler := fun c => do
   let lens ← getNatList c "lens"
@@ -124,18 +132,37 @@ def c14Loader : Handler := fun c => do
     match loaderBatches lens nb B dyn drop [] with
     | .error e => pure (objJ [("err", strJ (errStr e))])
     | .ok _ =>
-      let (served, lfin) := Loader.exec perm ops l
-      let info := lensAlong perm ops l
-      let js := (served.zip info).map (fun (r, (e, ln, ln')) =>
+      let (trace, sfin) := Session.exec perm ops (Session.new l)
+      let states := statesAlong perm ops (Session.new l)
+      let sortRow := fun (b : List Nat) => if sort then sortDesc (fun i => lens.getD i 0) b else b
+      let evs := (trace.zip states).map (fun ((op, out), (s, s')) =>
+        let e := s.loader.epoch
         let order := PdtVerif.EpochSampler.samples l.sampler.cfg (perm e)
-        match r with
-        | .error er => objJ [("epoch", natJ e), ("err", strJ (errStr er))]
-        | .ok (bs, er) =>
-          let rows := if sort then bs.map (sortDesc (fun i => lens.getD i 0)) else bs
-          objJ [("epoch", natJ e), ("order", listJ natJ order), ("batches", batchesJ bs),
-                ("rows", batchesJ rows), ("err", errJ er), ("len", exceptNatJ ln),
-                ("len_after", exceptNatJ ln')])
-      pure (objJ [("serves", Json.arr js.toArray), ("final_epoch", natJ lfin.epoch), ("params", params)])
+        let base := [("epoch", natJ e), ("epoch_after", natJ s'.loader.epoch), ("order", listJ natJ order)]
+        match op, out with
+        | .serve, .pass (.error er) => ("serve", objJ (base ++ [("op", strJ "serve"), ("err", strJ (errStr er))]))
+        | .serve, .pass (.ok (bs, er)) =>
+          ("serve", objJ (base ++ [("op", strJ "serve"), ("batches", batchesJ bs),
+            ("rows", batchesJ (bs.map sortRow)), ("err", errJ er),
+            ("len", exceptNatJ (s.loader.len perm)), ("len_after", exceptNatJ (s'.loader.len perm))]))
+        | .next k, .batch (.ok (some b)) =>
+          ("next", objJ (base ++ [("op", strJ "next"), ("k", natJ k), ("batch", listJ natJ b),
+            ("row", listJ natJ (sortRow b))]))
+        | .next k, .batch (.ok none) =>
+          ("next", objJ (base ++ [("op", strJ "next"), ("k", natJ k), ("stop", boolJ true)]))
+        | .next k, .batch (.error er) =>
+          ("next", objJ (base ++ [("op", strJ "next"), ("k", natJ k), ("err", strJ (errStr er))]))
+        | .next k, .noIter =>
+          ("next", objJ (base ++ [("op", strJ "next"), ("k", natJ k), ("err", strJ "no such iterator")]))
+        | .len, .len n => ("len", objJ (base ++ [("op", strJ "len"), ("len", exceptNatJ n)]))
+        | .peek e', .samples xs =>
+          ("peek", objJ (base ++ [("op", strJ "peek"), ("of", natJ e'), ("samples", listJ natJ xs)]))
+        | .newIter, _ => ("open", objJ (base ++ [("op", strJ "open")]))
+        | .setEpoch e', _ => ("set", objJ (base ++ [("op", strJ "set"), ("to", natJ e')]))
+        | _, _ => ("?", objJ (base ++ [("op", strJ "?")])))
+      let serves := (evs.filter (fun p => p.1 == "serve")).map Prod.snd
+      pure (objJ [("serves", Json.arr serves.toArray), ("events", Json.arr (evs.map Prod.snd).toArray),
+        ("final_epoch", natJ sfin.loader.epoch), ("params", params)])
 
 def getRows (j : Json) : Except String (List (List Int)) := jsonToList (jsonToList jsonToInt) j
 
